@@ -210,6 +210,10 @@ class Index:
                 raise AnalysisError(f"cannot parse {rel}: {e}") from e
             if os.environ.get("GV_NO_CANON") != "1":
                 _normalise_locals(rel, tree)
+                if os.environ.get("GV_CANON_TESTS", "1") == "1":
+                    from gv import canon as _canon
+
+                    _canon.canonicalise_tests(tree)
         mod = ModuleInfo(relpath=rel, modname=_modname(rel), tree=tree, source=src)
         if reuse is not None:
             mod.imports = reuse.imports
